@@ -11,8 +11,8 @@ import BindgenModel.Model.CRegions
   `i:<literal text>`  `f:<n|f|l>:<hex f64 bits>:<hex f32 bits>:<dot-and-exponent 0|1>`  `c:<pre>:<code>`  `s:<pre>:<hex bytes or ->`
   `n:<name>`  `p`(1)  `u+ u- u~ u!`(1)  `b<op>`(2)  `?`(3)  `k:<ty>`(1)  `z:<ty>`  `j`(2)
 
-`c05 e style=<…> tr=<0|1> ty=<cty> NAME=<int> …` → `repr=<name>,<bits>,<signed> NAME=lit:<text>|alias:<target> …`
-`c05 v ty=<cty> v=<int>` → `<rust type>:<literal>`
+`c05 e style=<…> tr=<0|1> ty=<cty|wchar> NAME=<int> …` → `repr=<name>,<bits>,<signed> region=<-|b|w> NAME=lit:<text>|alias:<target> …`
+`c05 v ty=<cty|wchar> v=<int>` → `<rust type>:<literal> region=<-|w>`
 `c05 k sg=<0|1> fit=<0|1> v=<int>` → kind name
 -/
 namespace BindgenModel.Driver.C05
@@ -198,7 +198,8 @@ def parseStyle (s : String) : Option EStyle :=
   | _ => none
 
 def handleEnum (toks : List String) : String :=
-  match (kv toks "style").bind parseStyle, (kv toks "ty").bind parseTy with
+  let wchar := kv toks "ty" == some "wchar"
+  match (kv toks "style").bind parseStyle, (if wchar then some CTy.uint else (kv toks "ty").bind parseTy) with
   | some style, some ty =>
     let tr := kv toks "tr" == some "1"
     let vtoks := toks.filter fun t => !(t.startsWith "style=" || t.startsWith "tr=" || t.startsWith "ty=")
@@ -208,15 +209,24 @@ def handleEnum (toks : List String) : String :=
     if vs.any Option.isNone then "bad-variant" else
     let variants := vs.filterMap id
     let repr := enumRepr tr style ty
-    let items := (emitEnum style ty variants).map fun i => match i with
+    let reprName := if wchar && !(tr || style.isRust) then "u32" else repr.name
+    let emitted := if wchar then emitVariantsWChar style.isRust variants [] else emitEnum style ty variants
+    let items := emitted.map fun i => match i with
       | .lit n l => s!"{n}=lit:{l.text}"
       | .aliasOf n target => s!"{n}=alias:{target}"
-    s!"repr={repr.name},{repr.bits},{if repr.signed then 1 else 0} " ++ " ".intercalate items
+    let region := (if enumBoolTranslated tr style.isRust ty then "b" else "") ++
+      (if wchar && variants.any (fun p => wcharRegion p.2) then "w" else "")
+    s!"repr={reprName},{repr.bits},{if repr.signed then 1 else 0} region={if region.isEmpty then "-" else region} " ++ " ".intercalate items
   | _, _ => "bad-op"
 
 def handleVar (toks : List String) : String :=
+  if kv toks "ty" == some "wchar" then
+    match (kv toks "v").bind String.toInt? with
+    | some v => emitText (emitVarWChar v) ++ (if wcharRegion v then " region=w" else " region=-")
+    | none => "bad-op"
+  else
   match (kv toks "ty").bind parseTy, (kv toks "v").bind String.toInt? with
-  | some ty, some v => emitText (emitVarInt ty v)
+  | some ty, some v => emitText (emitVarInt ty v) ++ " region=-"
   | _, _ => "bad-op"
 
 def handleKind (toks : List String) : String :=
